@@ -712,7 +712,7 @@ pub struct Container {
 }
 
 pub fn open_container(bytes: &[u8]) -> Result<Container, OffErr> {
-    let mut cf = cfb::CompoundFile::open(std::io::Cursor::new(bytes.to_vec())).map_err(|e| OffErr::Container(e.to_string()))?;
+    let mut cf = cfb::CompoundFile::open(std::io::Cursor::new(bytes)).map_err(|e| OffErr::Container(e.to_string()))?;
     let paths: Vec<String> = cf.walk().filter(|e| e.is_stream()).map(|e| e.path().to_string_lossy().to_string()).collect();
     let mut read = |p: &str| -> Result<Vec<u8>, OffErr> {
         let mut s = cf.open_stream(p).map_err(|e| OffErr::Container(format!("stream {}: {}", p, e)))?;
